@@ -16,19 +16,26 @@ var c02Alpha = alphaOpt{Tables: []string{"t1", "t2"}, Inserts: []int{1, 9}, Upda
 
 func runC02(env *lib.Env, rep *lib.Report) {
 	d, bound := 3, 1
-	seeds := []string{"empty", "t1x8", "t1x8+t2t3", "t1x8-upper-deleted", "t1x8+t2t3-crashed", "interleaved", "t1x12+t2x1"}
+	seeds := []string{"empty", "t1x8", "t1x8+t2t3", "t1x8+t2t3-crashed", "interleaved", "t1x12+t2x1"}
+	alpha := c02Alpha
+	alpha.FewDeletes = true
 	if env.Thorough() {
 		d, bound = 4, 2
-		seeds = append(seeds, "t1x8-crashed", "t1x30", "catalog-split")
+		alpha = c02Alpha
+		seeds = append(seeds, "t1x8-upper-deleted", "t1x8-crashed", "t1x30", "catalog-split")
 	}
 	var cfgs []histCfg
 	for _, seed := range seeds {
-		cfgs = append(cfgs, histCfg{Name: "real/" + seed, Opt: worldOpt{}, Seed: seed, Alpha: c02Alpha, Depth: d,
+		cfgs = append(cfgs, histCfg{Name: "real/" + seed, Opt: worldOpt{}, Seed: seed, Alpha: alpha, Depth: d,
 			TickChoice: true, Reopen: true, Crash: true, FinalCrash: true})
 	}
 	// reduced capacity: deeper trees, more splits per statement
-	for _, seed := range []string{"empty", "interleaved"} {
-		cfgs = append(cfgs, histCfg{Name: "leaf3-int3/" + seed, Opt: worldOpt{Leaf: 3, Internal: 3}, Seed: seed, Alpha: c02Alpha, Depth: d,
+	reduced := []string{"interleaved"}
+	if env.Thorough() {
+		reduced = []string{"empty", "interleaved"}
+	}
+	for _, seed := range reduced {
+		cfgs = append(cfgs, histCfg{Name: "leaf3-int3/" + seed, Opt: worldOpt{Leaf: 3, Internal: 3}, Seed: seed, Alpha: alpha, Depth: d,
 			TickChoice: true, Reopen: true, Crash: true, FinalCrash: true})
 	}
 	rep.Bounds["depth"] = d
